@@ -1,5 +1,6 @@
 import SockModel.Drive.Common
 import SockModel.Model.Pool
+import SockModel.Spec.C10
 /-! Driver for C10: validates pool transcripts against `Model/Pool.lean` and
 evaluates the property directly on the observations. -/
 namespace SockModel.Drive.C10
@@ -17,22 +18,9 @@ structure St where
 def lookupOrd (m : List (Nat × Nat)) (ord : Nat) : Option Nat := (m.find? (·.1 = ord)).map (·.2)
 def lookupId (m : List (Nat × Nat)) (id : Nat) : Option Nat := (m.find? (·.2 = id)).map (·.1)
 
-/-- the property itself, on observations only: what a `get -> ok ord size cap` must satisfy -/
-def specGetOk (s : St) (ord size cap : Nat) : Option String :=
-  if s.out.contains ord then some s!"buffer {ord} handed out while still outstanding"
-  else if size ≠ 0 then some s!"buffer {ord} not empty (size {size})"
-  else if s.n > 0 ∧ s.out.length + 1 > s.n then some s!"more than N={s.n} buffers outstanding"
-  else if s.n > 0 ∧ cap < s.r then some s!"pre-allocated buffer {ord} lacks reserved capacity ({cap} < {s.r})"
-  else if ¬ s.known.contains ord ∧ (s.known.any fun k => ¬ s.out.contains k) then
-    some s!"new buffer {ord} created while an idle one exists"
-  else if s.n > 0 ∧ ¬ s.known.contains ord ∧ s.known.length ≥ s.n then
-    some s!"pre-allocated pool allocated buffer {ord} after construction"
-  else none
-
-def specGetThrow (s : St) : Option String :=
-  if s.n = 0 then some "unlimited pool refused a Get"
-  else if s.out.length < s.n then some s!"Get refused with only {s.out.length} of N={s.n} outstanding"
-  else none
+/-- the observer's book-keeping for `Spec.C10` (defined in `Spec/C10.lean`, proved there to accept every
+trace of the model: `model_satisfies_spec`) -/
+def St.spec (s : St) : SpecSt := { out := s.out, known := s.known }
 
 partial def go (s : St) : List String → Verdict
   | [] => { tags := s.tags }
@@ -49,7 +37,7 @@ partial def go (s : St) : List String → Verdict
         | some ["ok", ord, size, cap] =>
           match ord.toNat?, size.toNat?, cap.toNat? with
           | some ord, some size, some cap =>
-            match specGetOk s ord size cap with
+            match Pool.specGetOk s.n s.r s.spec ord size cap with
             | some msg => Verdict.spec msg s.tags
             | none =>
               match get s.pool with
@@ -70,7 +58,7 @@ partial def go (s : St) : List String → Verdict
                                    known := s.known ++ [ord], tags := tag :: s.tags } rest'
           | _, _, _ => Verdict.corr s!"bad observation {o}"
         | some ["throw"] =>
-          match specGetThrow s with
+          match Pool.specGetThrow s.n s.spec with
           | some msg => Verdict.spec msg s.tags
           | none =>
             match get s.pool with
